@@ -39,7 +39,7 @@ enum Kind {
 
 #[derive(Clone, Debug)]
 struct Req {
-    k: &'static str, // of | u | ua | x | n | s | l | i | j
+    k: &'static str, // of | u | ua | uk | x | n | s | l | i | j
                      // x: `use l.p.k(0);` (not a selected name; propagates a circular error since fix 052b116)
                      // s: `alias g is true [nonexistent_t, l.p.k return boolean];` (resolve_signature returns
                      //    the Unknown of the first type mark: the circular error of the second is discarded)
@@ -55,11 +55,19 @@ struct Unit {
     reqs: Vec<Req>,
 }
 
+/// Names are deliberately EQUAL across libraries: the j-th primary unit of every library is
+/// called `u<j>` (package or entity), the j-th architecture of every entity `a<j>`; the same
+/// UnitKey therefore denotes different units in different libraries.
 fn unit_name(u: usize, us: &[Unit]) -> String {
     match us[u].kind {
-        Kind::P => format!("p{u}"),
-        Kind::E => format!("e{u}"),
-        Kind::A => format!("a{u}"),
+        Kind::P | Kind::E => {
+            let j = (0..u).filter(|&v| us[v].lib == us[u].lib && us[v].kind != Kind::A).count();
+            format!("u{j}")
+        }
+        Kind::A => {
+            let j = (0..u).filter(|&v| us[v].kind == Kind::A && us[v].of == us[u].of).count();
+            format!("a{j}")
+        }
     }
 }
 
@@ -72,7 +80,7 @@ fn is_primary(k: Kind) -> bool {
 fn section(k: &str) -> usize {
     match k {
         "of" => 0,
-        "u" | "ua" | "x" | "l" => 1,
+        "u" | "ua" | "uk" | "x" | "l" => 1,
         "n" | "s" => 2,
         _ => 3,
     }
@@ -103,7 +111,7 @@ fn add_edge(us: &mut [Unit], rng: &mut Rng, from: usize, to: usize, swallow_pm: 
             if rng.chance(swallow_pm, 1000) {
                 "s"
             } else {
-                *rng.pick(&["u", "ua", "ua", "n", "n", "x"])
+                *rng.pick(&["u", "ua", "ua", "n", "n", "x", "uk"])
             }
         }
     };
@@ -113,19 +121,28 @@ fn add_edge(us: &mut [Unit], rng: &mut Rng, from: usize, to: usize, swallow_pm: 
 fn gen_case(rng: &mut Rng, id: usize, maxunits: usize) -> Value {
     let shapes = [
         "dag", "cycle", "nested", "tails_chords", "self_use", "lib_all", "swallow", "dense", "cycle", "tails_chords", "dag", "dag",
-        "arch_cycle", "arch_cycle", "symtab",
+        "arch_cycle", "arch_cycle", "symtab", "homonym", "homonym", "lib_all",
     ];
     let shape = shapes[rng.below(shapes.len())];
     if shape == "symtab" {
         return gen_symtab(rng, id);
     }
-    let nlib = 1 + rng.below(3);
+    let nlib = if shape == "homonym" || shape == "lib_all" { 2 + rng.below(2) } else { 1 + rng.below(3) };
     let n = 2 + rng.below(maxunits.max(3) - 1);
     let p_pkg = if shape == "arch_cycle" { 2 } else { 7 };
     let mut us: Vec<Unit> = Vec::new();
     let mut nfiles = 0;
-    while us.len() < n || (shape == "arch_cycle" && us.iter().filter(|u| u.kind == Kind::A).count() < 3) {
-        let lib = rng.below(nlib);
+    // homonym / lib_all: every library gets at least two primary units
+    let few = |us: &Vec<Unit>| (0..nlib).any(|l| us.iter().filter(|u| u.lib == l && u.kind != Kind::A).count() < 2);
+    while us.len() < n
+        || (shape == "arch_cycle" && us.iter().filter(|u| u.kind == Kind::A).count() < 3)
+        || ((shape == "homonym" || shape == "lib_all") && few(&us))
+    {
+        let lib = if (shape == "homonym" || shape == "lib_all") && few(&us) {
+            (0..nlib).find(|&l| us.iter().filter(|u| u.lib == l && u.kind != Kind::A).count() < 2).unwrap()
+        } else {
+            rng.below(nlib)
+        };
         if rng.chance(p_pkg, 10) {
             us.push(Unit { lib, kind: Kind::P, of: 0, file: nfiles, reqs: vec![] });
             nfiles += 1;
@@ -256,20 +273,58 @@ fn gen_case(rng: &mut Rng, id: usize, maxunits: usize) -> Value {
             }
         }
         "lib_all" => {
-            if nlib >= 2 {
-                let len = 1 + rng.below(3);
-                let c = pick_cycle(rng, len);
+            let len = 1 + rng.below(3);
+            let c = pick_cycle(rng, len);
+            if rng.chance(1, 2) {
                 plant(&mut us, rng, &c);
-                let cnt = 1 + rng.below(2);
-                for _ in 0..cnt {
-                    let from = rng.below(n);
-                    let others: Vec<usize> = (0..nlib).filter(|&l| l != us[from].lib).collect();
-                    let l = *rng.pick(&others);
-                    us[from].reqs.push(Req { k: "l", t: l });
+            }
+            // `use <other library>.all` ON a cycle: a (library la) uses lb.all, a unit b of lb
+            // uses a through a selected name
+            let cnt = 1 + rng.below(2);
+            for _ in 0..cnt {
+                let a = *rng.pick(&prim);
+                let others: Vec<usize> = (0..nlib).filter(|&l| l != us[a].lib).collect();
+                let lb = *rng.pick(&others);
+                let bs: Vec<usize> = prim.iter().cloned().filter(|&v| us[v].lib == lb).collect();
+                let b = *rng.pick(&bs);
+                us[a].reqs.push(Req { k: "l", t: lb });
+                add_edge(&mut us, rng, b, a, 0);
+            }
+            if rng.chance(1, 2) {
+                let from = rng.below(n);
+                let others: Vec<usize> = (0..nlib).filter(|&l| l != us[from].lib).collect();
+                let l = *rng.pick(&others);
+                us[from].reqs.push(Req { k: "l", t: l });
+            }
+        }
+        "homonym" => {
+            // x (library la) uses the homonyms h1 = lb.u<j> and h2 = la.u<j> in either order; the
+            // unit used SECOND uses x: the cycle is behind the second homonym
+            let cnt = 1 + rng.below(2);
+            for _ in 0..cnt {
+                let la = rng.below(nlib);
+                let others: Vec<usize> = (0..nlib).filter(|&l| l != la).collect();
+                let lb = *rng.pick(&others);
+                let pa: Vec<usize> = prim.iter().cloned().filter(|&v| us[v].lib == la).collect();
+                let pb: Vec<usize> = prim.iter().cloned().filter(|&v| us[v].lib == lb).collect();
+                let j = rng.below(pa.len().min(pb.len()));
+                let (h2, h1) = (pa[j], pb[j]);
+                let xs: Vec<usize> = (0..n).filter(|&v| us[v].lib == la && v != h2).collect();
+                let x = *rng.pick(&xs);
+                let (first, second) = if rng.chance(1, 2) { (h1, h2) } else { (h2, h1) };
+                let kind = |us: &Vec<Unit>, t: usize, rng: &mut Rng| -> &'static str {
+                    if us[t].kind == Kind::P { *rng.pick(&["ua", "u", "uk"]) } else { "u" }
+                };
+                let k1 = kind(&us, first, rng);
+                let k2 = kind(&us, second, rng);
+                let at = if us[x].kind == Kind::A { 1 } else { 0 };
+                us[x].reqs.insert(at, Req { k: k1, t: first });
+                us[x].reqs.insert(at + 1, Req { k: k2, t: second });
+                let back = if us[x].kind == Kind::A { us[x].of } else { x };
+                add_edge(&mut us, rng, second, back, 0);
+                if rng.chance(1, 3) {
+                    add_edge(&mut us, rng, first, back, 0);
                 }
-            } else {
-                let c = pick_cycle(rng, 2);
-                plant(&mut us, rng, &c);
             }
         }
         _ => {}
@@ -284,10 +339,12 @@ fn gen_case(rng: &mut Rng, id: usize, maxunits: usize) -> Value {
     // declarative part, statements; shuffle inside each section
     for u in 0..n {
         let mut rs = std::mem::take(&mut us[u].reqs);
-        for i in (1..rs.len()).rev() {
-            rs.swap(i, rng.below(i + 1));
+        if shape != "homonym" {
+            for i in (1..rs.len()).rev() {
+                rs.swap(i, rng.below(i + 1));
+            }
         }
-        rs.sort_by_key(|r| section(r.k));
+        rs.sort_by_key(|r| section(r.k)); // stable
         if shape != "arch_cycle" {
             rs.truncate(6);
         }
@@ -377,6 +434,7 @@ fn render(rng: &mut Rng, id: usize, shape: &str, nlib: usize, us: &[Unit], nfile
             let txt = match r.k {
                 "u" => format!("use {}.{};", libname(u, us[r.t].lib, rng), unit_name(r.t, us)),
                 "ua" => format!("use {}.{}.all;", libname(u, us[r.t].lib, rng), unit_name(r.t, us)),
+                "uk" => format!("use {}.{}.k;", libname(u, us[r.t].lib, rng), unit_name(r.t, us)),
                 "x" => format!("use {}.{}.k(0);", libname(u, us[r.t].lib, rng), unit_name(r.t, us)),
                 _ => format!("use l{}.all;", r.t),
             };
